@@ -92,6 +92,7 @@ def gen_cat_data(rng, n_series=None, big=False):
             cats = [rng.choice(["c%d" % i, "a<b>&c", "  sp  ", "ü%d" % i, ""]) for i in range(n)]
         elif kind == "num":
             cats = [rng.choice([i, i * 1.5, -i]) for i in range(n)]
+            rng.shuffle(cats)      # the 0 / 0.0 among them anywhere, not always first (the first label decides the category kind)
         else:
             base = rng.choice([dt.date(1900, 2, 27), dt.date(1900, 1, 1), dt.date(1904, 1, 1), dt.date(2020, 12, 30), dt.date(1999, 12, 31)])
             cats = [base + dt.timedelta(days=i) for i in range(n)]
